@@ -73,14 +73,17 @@ Record obs := {
   o_bloom : bytes; o_maxver : N; o_count : N;
   o_fwd : olist; o_rev : olist;
   o_res : list tres;
-  o_seqs : list seqobs }.
+  o_seqs : list seqobs;
+  o_stale : option N }.   (* TableIndex.StaleDataSize, when observed *)
 
 (** observations after reopening: [AsBuilt] = identical to those before *)
 Inductive robs := AsBuilt | Reopened (o : obs).
 
 Record case := {
   c_bsz : N; c_with_bloom : bool; c_bpk : N; c_k : N;
-  c_entries : list entry; c_targets : list target;
+  c_entries : list entry;
+  c_stale : list N;   (* indices of the entries added through AddStaleEntryWithLen(e, len(value)) *)
+  c_targets : list target;
   c_built : obs; c_reopened : robs }.
 
 Definition seek_limit : nat := 3.
@@ -175,13 +178,28 @@ Definition seq_ok (es : list entry) (tgs : list target) (answer : bool -> bytes 
               | None => false
               end) (sq_targets sq) (sq_res sq).
 
-Definition obs_model_ok (t : table) (es : list entry) (tgs : list target) (o : obs) : bool :=
+(** tableBuilder.staleDataSize: a stale add counts key + value + 8, and key + 8 once
+    more when the entry opens a block; everything else about a stale add (blocks, key
+    hashes for the bloom filter, MaxVersion) is the plain [add] *)
+Definition block_starts (t : table) : list N :=
+  snd (fold_left (fun acc b => (fst acc + b_count b, snd acc ++ [fst acc])) (t_blocks t) (0, [])).
+Definition stale_size (t : table) (es : list entry) (stale : list N) : N :=
+  let starts := block_starts t in
+  fold_left (fun n i =>
+               match nth_error es (N.to_nat i) with
+               | Some e => n + blen (e_key e) + blen (vs_val (e_vs e)) + 8
+                           + (if existsb (N.eqb i) starts then blen (e_key e) + 8 else 0)
+               | None => n
+               end) stale 0.
+
+Definition obs_model_ok (t : table) (es : list entry) (stale : list N) (tgs : list target) (o : obs) : bool :=
   layout_eqb (layout_of t) (map (lay_resolve es) (o_layout o))
   && bytes_eqb (t_bloom t) (o_bloom o) && (t_maxver t =? o_maxver o) && (t_count t =? o_count o)
   && olist_ok (iterate true t) (resolve es (o_fwd o))
   && olist_ok (iterate false t) (resolve es (o_rev o))
   && forallb2 (res_model_ok t es) tgs (o_res o)
-  && forallb (seq_ok es tgs (fun asc k => take_items asc t seq_limit (tseek asc t k))) (o_seqs o).
+  && forallb (seq_ok es tgs (fun asc k => take_items asc t seq_limit (tseek asc t k))) (o_seqs o)
+  && match o_stale o with Some n => n =? N.min (stale_size t es stale) 4294967295 | None => true end.
 
 Definition obs_spec_ok (es : list entry) (tgs : list target) (o : obs) : bool :=
   list_eqb entry_eqb (spec_iter true es) (resolve es (o_fwd o))
@@ -196,8 +214,8 @@ Definition check (c : case) : verdict :=
     match build (c_bsz c) (c_with_bloom c) (c_bpk c) (c_k c) es with
     | None => true
     | Some t =>
-        negb (obs_model_ok t es tgs (c_built c)
-              && match c_reopened c with AsBuilt => true | Reopened o => obs_model_ok t es tgs o end)
+        negb (obs_model_ok t es (c_stale c) tgs (c_built c)
+              && match c_reopened c with AsBuilt => true | Reopened o => obs_model_ok t es (c_stale c) tgs o end)
     end in
   (* the specification speaks about sorted tables of well-formed internal keys *)
   let pre := sorted_b es && keys_ok_b es in
@@ -215,12 +233,20 @@ Definition T (k : tkey) (mv : N) : target := {| tg_spec := k; tg_maxvs := mv |}.
 Definition R (s : option oent) (f r : list oent) : tres := {| r_search := s; r_fwd := f; r_rev := r |}.
 Definition OS (lay : list lay) (bloom : hx) (maxver count : N) (fwd rev : olist) (rs : list tres) (sqs : list seqobs) : obs :=
   {| o_layout := lay; o_bloom := hb bloom; o_maxver := maxver; o_count := count;
-     o_fwd := fwd; o_rev := rev; o_res := rs; o_seqs := sqs |}.
+     o_fwd := fwd; o_rev := rev; o_res := rs; o_seqs := sqs; o_stale := None |}.
 Arguments OS lay bloom%hx maxver%N count%N fwd rev rs sqs.
+Definition OT (lay : list lay) (bloom : hx) (maxver count stale : N) (fwd rev : olist) (rs : list tres) (sqs : list seqobs) : obs :=
+  {| o_layout := lay; o_bloom := hb bloom; o_maxver := maxver; o_count := count;
+     o_fwd := fwd; o_rev := rev; o_res := rs; o_seqs := sqs; o_stale := Some stale |}.
+Arguments OT lay bloom%hx maxver%N count%N stale%N fwd rev rs sqs.
 Definition O (lay : list lay) (bloom : hx) (maxver count : N) (fwd rev : olist) (rs : list tres) : obs :=
   OS lay bloom maxver count fwd rev rs [].
 Arguments O lay bloom%hx maxver%N count%N fwd rev rs.
 Definition SQ (asc : bool) (ts : list N) (rs : list (list oent)) : seqobs := {| sq_asc := asc; sq_targets := ts; sq_res := rs |}.
 Definition Cs (bsz : N) (wb : bool) (bpk k : N) (es : list entry) (tgs : list target) (b : obs) (r : robs) : case :=
-  {| c_bsz := bsz; c_with_bloom := wb; c_bpk := bpk; c_k := k; c_entries := es; c_targets := tgs;
+  {| c_bsz := bsz; c_with_bloom := wb; c_bpk := bpk; c_k := k; c_entries := es; c_stale := []; c_targets := tgs;
+     c_built := b; c_reopened := r |}.
+(** a build program with stale adds *)
+Definition Ct (bsz : N) (wb : bool) (bpk k : N) (es : list entry) (stale : list N) (tgs : list target) (b : obs) (r : robs) : case :=
+  {| c_bsz := bsz; c_with_bloom := wb; c_bpk := bpk; c_k := k; c_entries := es; c_stale := stale; c_targets := tgs;
      c_built := b; c_reopened := r |}.
